@@ -14,7 +14,7 @@ ENGINE = "E-GRAM grammars x all token strings, generated parser vs an independen
 RULE = (
     "every grammar of the enumerated families (one item from 124 item shapes; two items; two alternatives; 2+1 items "
     "with cuts, lookaheads, forced tokens; three items; direct / mutual / nested left recursion with every tail item; "
-    "with and without (memo), with and without named items + actions, four auxiliary rules) that satisfies the "
+    "with and without (memo), with and without named items + actions, four auxiliary rules; alternatives that refer to invalid_ rules and *_without_invalid rules, run with pegen's call_invalid_rules flag off and on) that satisfies the "
     "quantifier's well-formedness conditions (decided by an own nullable / first-graph analysis), x every token string "
     "over {a, b, c} up to the length bound, run on the real tokenizer. Each grammar is built as pegen.grammar objects and "
     "again from its text through the shipped metagrammar parser (equal repr), generated with XonshParserGenerator and "
@@ -22,7 +22,7 @@ RULE = (
     "(value, end position) or forced-token error equals the reference interpreter's. Non-trivial = (grammar, string) "
     "pairs inside the domain on which the reference accepts (distinct)."
 )
-BOUND = {"quick": "families one / two-items / two-alts / alt21 / leftrec; strings over {a,b,c} of length <= 4 (121)",
+BOUND = {"quick": "families one / two-items / two-alts / alt21 / leftrec / invalid; strings over {a,b,c} of length <= 4 (121)",
          "thorough": "all families incl. three items; all four auxiliary rules; strings of length <= 5 (364)"}
 ASSUMPTIONS = ["pegen's documented value conventions (single item -> its value, several -> list, action -> its value) are part of the semantics compared",
                "(grammar, input) pairs where some alternative succeeds with a falsy value are outside the quantifier (counted)"]
@@ -158,10 +158,11 @@ def norm(v: Any) -> Any:
     return v
 
 
-def run_generated(cls: Any, rule: str, toks: list) -> tuple:
+def run_generated(cls: Any, rule: str, toks: list, invalid: bool = False) -> tuple:
     from peg_parser.tokenizer import Tokenizer
 
     p = cls(Tokenizer(iter(toks)))
+    p.call_invalid_rules = invalid
     try:
         v = getattr(p, rule)()
     except SyntaxError:
@@ -201,12 +202,14 @@ def check_grammar(desc: dict, g: Any, tier: str, acc: Any) -> None:
         return
     kw = hard | soft
     n = 4 if tier == "quick" else 5
+    passes = (False, True) if fam == "invalid" else (False,)  # pegen's call_invalid_rules flag: first and second pass
     for text_in, toks in strings(n, bool(desc.get("spelled"))):
+      for inv in passes:
         for rule in ("r", "start"):
             if rule == "start" and not text_in:
                 continue
             try:
-                want = pegref.run(g, rule, toks, kw)
+                want = pegref.run(g, rule, toks, kw, inv)
                 want = (want[0], norm(want[1]) if want[0] == "ok" else None, want[2])
             except pegref.OutsideDomain as e:
                 acc.count("pair-outside:" + str(e).split(" ")[0])
@@ -214,7 +217,7 @@ def check_grammar(desc: dict, g: Any, tier: str, acc: Any) -> None:
             except RecursionError:
                 acc.count("pair-outside:reference-recursion")
                 continue
-            got = run_generated(cls, rule, toks)
+            got = run_generated(cls, rule, toks, inv)
             acc.ran()
             if want[0] == "ok":
                 acc.nontrivial((text, rule, text_in))
@@ -226,6 +229,6 @@ def check_grammar(desc: dict, g: Any, tier: str, acc: Any) -> None:
                 kind = "value-differs"
             else:
                 kind = "end-position-differs"
-            acc.violation(f"PEG {kind} family={fam} rule={rule}", dict(case, input=text_in), {"generated": got, "reference": want, "code": code[-600:]})
+            acc.violation(f"PEG {kind} family={fam} rule={rule}" + (" pass=2" if inv else ""), dict(case, input=text_in, call_invalid_rules=inv), {"generated": got, "reference": want, "code": code[-600:]})
             return
     acc.count("agree")
